@@ -116,7 +116,7 @@ def G2_served(rep, flow: Flow, T):
 
 
 def G4_strict(rep, flow: Flow, fqs):
-    rep.rule("G4", "on every path of the preparation APIs the sign-reference synthesis is called with allow_underconstrained absent or false", floor=1)
+    rep.rule("G4", "on every path of the preparation APIs the sign-reference synthesis is called with allow_underconstrained absent or false, and inside the synthesis each permission flag (allow_underconstrained, allow_redundant) guards a raise that fires exactly when the flag is false", floor=1)
     for fq in fqs:
         f = flow.prog.func(fq)
         n = 0
@@ -140,6 +140,39 @@ def G4_strict(rep, flow: Flow, fqs):
         total = locals().get("total", 0) + n
     if total == 0:
         raise AnalysisError("no call to a synthesis routine with an allow_underconstrained parameter found on any preparation path (anchor vanished)")
+    # inside the synthesis routine: each permission flag guards a raise that fires exactly when the flag is false
+    ce = consteval.CE(flow.prog)
+    for g in [x for m in flow.prog.modules.values() for x in m.all_funcs]:
+        for flag in ("allow_underconstrained", "allow_redundant"):
+            if flag not in g.params:
+                continue
+            guards = [n for n in ast.walk(g.node) if isinstance(n, ast.If) and any(isinstance(x, ast.Name) and x.id == flag for x in ast.walk(n.test))
+                      and any(isinstance(b, ast.Raise) for b in n.body)]
+            passes_on = any(isinstance(c, ast.Call) and any(isinstance(a, ast.Name) and a.id == flag for a in list(c.args) + [k.value for k in c.keywords]) for c in ast.walk(g.node))
+            if not guards and passes_on:
+                continue          # handed to a helper, which is judged where it has the flag as a parameter of its own
+            if not guards:
+                rep.finding("G4", f"{g.fq}:{flag}:no-guard", f"{g.module.rel} {g.qualname}: no `raise` is guarded by the permission flag `{flag}` any more: the corresponding invalid input is accepted silently")
+                continue
+            for n in guards:
+                class _Sub(ast.NodeTransformer):
+                    def visit(self, node):
+                        if isinstance(node, ast.Constant):
+                            return node
+                        if isinstance(node, ast.expr) and not any(isinstance(x, ast.Name) and x.id == flag for x in ast.walk(node)):
+                            return ast.copy_location(ast.Constant(True), node)      # the input condition itself holds
+                        return self.generic_visit(node)
+                import copy as _copy
+                t = _Sub().visit(_copy.deepcopy(n.test))
+                ast.fix_missing_locations(t)
+                try:
+                    fires = {v: bool(ce.truth(ce.ev(t, {flag: v}, g))) for v in (False, True)}
+                except (consteval.CERaise, AnalysisError):
+                    raise AnalysisError(f"{pyfacts.where(g, n)}: guard over `{flag}` outside the vocabulary [{ast.unparse(n.test)}]")
+                if fires == {False: True, True: False}:
+                    rep.ok("G4", 1, nontrivial=(g.fq, flag), sample=f"{g.qualname}: `if {ast.unparse(n.test)}: raise` fires iff {flag} is false")
+                else:
+                    rep.finding("G4", f"{g.fq}:{flag}:guard", f"{pyfacts.where(g, n)}: with the input condition holding, `if {ast.unparse(n.test)}: raise` fires for {flag}=False: {fires[False]}, for {flag}=True: {fires[True]}; it must raise exactly when the caller did not allow it")
 
 
 def G3_graphs(rep, flow: Flow):
